@@ -436,10 +436,16 @@ func (sj *SemiJoin) Select(sels Sels) {
 	if sj.reverse {
 		// iterate source2, so apply by columns to it
 		// and save the rest to add to source1 probe
+		by := sj.by
+		if sj.fastSingle() {
+			// the requirement is not passed on for a fastSingle query
+			// so source2 doesn't have an index to select on
+			by = nil
+		}
 		sj.sels1 = nil
 		var sel2 Sels
 		for _, sel := range sels {
-			if slices.Contains(sj.by, sel.col) {
+			if slices.Contains(by, sel.col) {
 				sel2 = append(sel2, sel)
 			} else {
 				sj.sels1 = append(sj.sels1, sel)
